@@ -21,14 +21,14 @@ DEFAULT = dict(Contexts="CtxSingle", Cases="CasesU", OGaps="GapsSp", KGaps="Gaps
                AGaps="GapsSp", S1Gaps="GapsNone", S2Gaps="GapsSp", Users="UsersU", Pieces="PiecesM", PwMax=1)
 
 
-def cfg(**kw):
+def cfg(inv=INV, **kw):
     d = dict(DEFAULT)
     d.update(kw)
     lines = ["SPECIFICATION Spec", "CONSTANTS"]
     for k, v in d.items():
         lines.append("  %s %s %s" % (k, "=" if k == "PwMax" else "<-", v))
     lines.append('  Design = "%s"' % DESIGN)
-    lines += ["INVARIANTS " + INV, "CHECK_DEADLOCK FALSE", ""]
+    lines += ["INVARIANTS " + inv, "CHECK_DEADLOCK FALSE", ""]
     return "\n".join(lines)
 
 
@@ -128,6 +128,32 @@ def run(ctx):
     if ce.get("skipped", 0) * 20 > n:
         raise vp.Broken("generator drift: %d of %d texts were not accepted by the real parser with the intended passwords"
                         % (ce.get("skipped", 0), n))
+    # speculative syntax: spellings the present parser rejects (other white-space characters in every gap, the doubled
+    # quote inside quoted text).  Judged by the same judge, and only where the parser under check accepts them.
+    spec = [("spec_og", dict(Contexts="CtxCS", OGaps="GapsSpecFew")),
+            ("spec_kg", dict(Contexts="CtxSingle", KGaps="GapsSpecSp", Cases="CasesAll")),
+            ("spec_lg", dict(Contexts="CtxSingle", LGaps="GapsSpecSp0", Cases="CasesAll")),
+            ("spec_eg", dict(Contexts="CtxS", EGaps="GapsSpecSp0", LGaps="GapsSpecSp0")),
+            ("spec_ag", dict(Contexts="CtxA", AGaps="GapsSpecSp0")),
+            ("spec_multi", dict(Contexts="CtxMulti", LGaps="GapsSpecFew")),
+            ("spec_quote", dict(Contexts="CtxSingle", Users="UsersSpec", Pieces="PiecesSpec", PwMax=3))]
+    speccases = ctx.path("cases_spec.ndjson")
+    with open(speccases, "w", encoding="utf-8") as out:
+        for name, consts in spec:
+            c = "Gen_c15_%s.cfg" % name
+            open(ctx.path("spec", c), "w").write(cfg(inv="GShape GValues", **consts))
+            cf = ctx.path("cases_%s.ndjson" % name)
+            ctx.tlc("Gen_c15", c, env={"CASE_FILE": cf}, workers=4, timeout=1500)
+            with open(cf, encoding="utf-8") as f:
+                for line in f:
+                    out.write(line)
+    ofs = ctx.path("obs_spec.ndjson")
+    ctx.drive("c15", speccases, ofs)
+    before = dict(ce)
+    ctx.judge("Judge_c15", JUDGE_CFG, ofs, chunk=2500, parallel=4, label="spec")
+    ctx.note("speculative syntax: %d texts (white-space-like characters in every gap, doubled quotes); %d accepted by the parser "
+             "under check and judged" % (ctx.count_lines(ofs), ce.get("valid", 0) - before.get("valid", 0)))
+    ce["speculative_texts"] = ctx.count_lines(ofs)
     recs = ctx.read_ndjson(of)
     step = max(1, len(recs) // 5)
     ctx.samples = [dict(text=x["obs"]["text"], sanitized=x["obs"].get("san"), printed=x["obs"].get("strs", []),
